@@ -13,7 +13,7 @@ import (
 func init() {
 	Register(&Property{
 		ID:    "C19",
-		Floor: 34,
+		Floor: 60,
 		Clauses: "sent-frame bookkeeping: every frame kind that a packetWriter appender reachable from Conn.maybeSend records in sentPacket has a case in Conn.handleAckOrLoss, " +
 			"and that case reads back exactly the integers/ranges the appender recorded; the recorded STREAM range is the offset and size actually framed. " +
 			"Stream.ackOrLossData: a lost range is re-added to outunsent and acknowledged ranges are removed again; ranges enter outacked only on packetAcked; the FIN state is touched only for FIN frames; " +
@@ -35,7 +35,7 @@ func c19(c *Ctx) {
 	hal := "(*quic.Conn).handleAckOrLoss"
 
 	// ---- frame kinds recorded by reachable appenders have a case, and the payload agrees
-	clauses, hasDefault, found := c.P.SwitchOnCall(hal, "next")
+	clauses, hasDefault, found := c.P.QaSwitchOnCall(hal, "next")
 	if !found {
 		c.Undecided("switch-covers", hal+": switch on sent.next()", "switch not found")
 	} else {
@@ -45,7 +45,7 @@ func c19(c *Ctx) {
 				caseOf[v] = i
 			}
 		}
-		reach, missing := c.P.ReachableFrom("(*quic.Conn).maybeSend")
+		reach, missing := c.P.QaReachableFrom("(*quic.Conn).maybeSend")
 		if len(missing) > 0 {
 			c.Undecided("anchor", "(*quic.Conn).maybeSend", "entry not found")
 		}
@@ -59,7 +59,7 @@ func c19(c *Ctx) {
 		recorders := 0
 		for _, name := range appenders {
 			fn := c.P.Fn(name)
-			recs := c.P.CallsInOrder(fn, SP+"appendAckElicitingFrame", SP+"appendNonAckElicitingFrame")
+			recs := c.P.QaCallsInOrder(fn, SP+"appendAckElicitingFrame", SP+"appendNonAckElicitingFrame")
 			if len(recs) == 0 {
 				continue
 			}
@@ -70,7 +70,7 @@ func c19(c *Ctx) {
 				c.Undecided("switch-covers", construct, fmt.Sprintf("%d recording calls in one appender; rule expects one", len(recs)))
 				continue
 			}
-			kinds, ok := ConstSet(recs[0].Call.Args[1])
+			kinds, ok := QaConstSet(recs[0].Call.Args[1])
 			if !ok || len(kinds) == 0 {
 				c.Undecided("switch-covers", construct, "recorded frame type `"+Term(recs[0].Call.Args[1])+"` is not a finite set of constants")
 				continue
@@ -89,13 +89,13 @@ func c19(c *Ctx) {
 				for _, k := range lacking {
 					m[k] = true
 				}
-				c.Fail("switch-covers", construct, recs[0].Pos(), "frame type(s) "+SortedInts(m)+" are recorded for ack/loss processing but handleAckOrLoss has no case (it panics in its default clause)")
+				c.Fail("switch-covers", construct, recs[0].Pos(), "frame type(s) "+QaSortedInts(m)+" are recorded for ack/loss processing but handleAckOrLoss has no case (it panics in its default clause)")
 				continue
 			}
-			c.OK("switch-covers", construct, "kinds "+SortedInts(kinds))
+			c.OK("switch-covers", construct, "kinds "+QaSortedInts(kinds))
 			// payload agreement
 			var wrote []string
-			for _, call := range c.P.CallsInOrder(fn, SP+"appendInt", SP+"appendOffAndSize") {
+			for _, call := range c.P.QaCallsInOrder(fn, SP+"appendInt", SP+"appendOffAndSize") {
 				if call.Pos() > recs[0].Pos() {
 					if strings.HasSuffix(CalleeName(&call.Call), "appendInt") {
 						wrote = append(wrote, "int")
@@ -108,7 +108,7 @@ func c19(c *Ctx) {
 			good := true
 			for i := range idx {
 				var read []string
-				for _, m := range MethodCallsIn(clauses[i].Body, "nextInt", "nextRange") {
+				for _, m := range QaMethodCallsIn(clauses[i].Body, "nextInt", "nextRange") {
 					if m == "nextInt" {
 						read = append(read, "int")
 					} else {
@@ -117,7 +117,7 @@ func c19(c *Ctx) {
 				}
 				if strings.Join(read, ",") != strings.Join(wrote, ",") {
 					good = false
-					c.Fail("codec-agree", c2, recs[0].Pos(), fmt.Sprintf("appender records [%s] after the frame type, the case for %s reads [%s]", strings.Join(wrote, ","), SortedInts(clauses[i].Vals), strings.Join(read, ",")))
+					c.Fail("codec-agree", c2, recs[0].Pos(), fmt.Sprintf("appender records [%s] after the frame type, the case for %s reads [%s]", strings.Join(wrote, ","), QaSortedInts(clauses[i].Vals), strings.Join(read, ",")))
 					break
 				}
 			}
@@ -140,8 +140,8 @@ func c19(c *Ctx) {
 	asf := W + "appendStreamFrame"
 	c.Has(asf, Calls(SP+"appendInt").ArgIs(1, "$0"))
 	c.Has(asf, Calls(SP+"appendOffAndSize").ArgIs(1, "$1"))
-	c.ArgSatisfies(asf, Calls(SP+"appendOffAndSize"), 2, "the size the frame was cut to (the returned slice length)", func(v ssa.Value) bool {
-		return sameAsSliceLen(c, asf, v)
+	c.QaArgSatisfies(asf, Calls(SP+"appendOffAndSize"), 2, "the size the frame was cut to (the returned slice length)", func(v ssa.Value) bool {
+		return qaSameAsSliceLen(c, asf, v)
 	})
 	// handleAckOrLoss dispatches STREAM frames with the recorded values
 	c.Has(hal, Calls(S+"ackOrLossData").ArgIs(2, "nextRange($1)#0").ArgIs(3, "nextRange($1)#1").ArgIs(5, "$2"))
@@ -154,8 +154,8 @@ func c19(c *Ctx) {
 	ackAdd := Calls(add).ArgIs(0, "&$r.outacked")
 	c.Guard(aol, ackAdd, "$4 == @quic.packetAcked")
 	c.Has(aol, ackAdd.ArgIs(1, "$1").ArgIs(2, "$2"))
-	c.ArgFrom(aol, c.Under_quica(Calls(sub).ArgIs(0, "&$r.outunsent"), "$4 == @quic.packetLost"), 1, "Stream.outacked", c.P.IsLoadOf("quic.Stream.outacked"))
-	c.NeverAfter(aol, c.Under_quica(Calls(sub).ArgIs(0, "&$r.outunsent"), "$4 == @quic.packetLost"), lostAdd, false)
+	c.ArgFrom(aol, c.QaUnder(Calls(sub).ArgIs(0, "&$r.outunsent"), "$4 == @quic.packetLost"), 1, "Stream.outacked", c.P.QaIsLoadOf("quic.Stream.outacked"))
+	c.NeverAfter(aol, c.QaUnder(Calls(sub).ArgIs(0, "&$r.outunsent"), "$4 == @quic.packetLost"), lostAdd, false)
 	c.Guard(aol, Calls("(*quic.sentVal).ackOrLoss").ArgIs(0, "&$r.outclosed"), "$3")
 	c.Guard(aol, Calls("(*quic.pipe).discardBefore"), "contains[int64]($r.outacked,$r.out.start)", "$4 == @quic.packetAcked")
 	c.Has(aol, Calls("(*quic.pipe).discardBefore").ArgIs(1, "$r.outacked[0].end"))
@@ -165,7 +165,7 @@ func c19(c *Ctx) {
 
 	// ---- Close
 	cl := S + "Close"
-	c.GuardAny(cl, ResultNilErr(), []string{"IsReadOnly($r)"},
+	c.QaGuardAny(cl, QaResultNilErr(), []string{"IsReadOnly($r)"},
 		[]string{"isReceived($r.outclosed)", "isrange[int64]($r.outacked,0,$r.out.end)", "waitOnDone($r.conn,$r.outctx,$r.outdone) == nil"})
 	c.Before(cl, Calls(S+"CloseWrite"), Calls("(*quic.Conn).waitOnDone"))
 
@@ -177,10 +177,10 @@ func c19(c *Ctx) {
 	bounds := "checkStreamBounds($r,($0+len($1)),$2) != nil"
 	c.Reject(hd, Union(writeAt, insetAdd, insize, Calls("(*quic.Conn).handleStreamBytesReceived")), bounds)
 	c.NeverAfter(hd, c.Edge("handleStreamBytesReceived($r.conn,(($0+len($1))-$r.in.end)) != nil"), Union(writeAt, insetAdd, insize), true)
-	c.Paired(hd, writeAt, insetAdd)
-	c.Paired(hd, insetAdd, writeAt)
+	c.QaPaired(hd, writeAt, insetAdd)
+	c.QaPaired(hd, insetAdd, writeAt)
 	c.Has(hd, insetAdd.ArgIs(2, "($0+len($1))"))
-	sameOffsetAndTrim(c, hd)
+	qaSameOffsetAndTrim(c, hd)
 	c.Guard(hd, insize, "$2")
 	c.Has(hd, insize.StoredIs("($0+len($1))"))
 	c.Writers("quic.Stream.inset", hd)
@@ -189,22 +189,22 @@ func c19(c *Ctx) {
 
 	// ---- Read
 	rd := S + "Read"
-	c.GuardAny(rd, ResultIs(1, "io.EOF"), []string{"$r.in.start == $r.insize"},
+	c.QaGuardAny(rd, QaResultIs(1, "io.EOF"), []string{"$r.in.start == $r.insize"},
 		[]string{"$r.in.start + len(φ($0|$0[:($r.inset[0].end-$r.in.start)])) == $r.insize"})
 	cp := Calls("(*quic.pipe).copy")
 	c.Has(rd, cp.ArgIs(1, "$r.in.start"))
 	c.Reject(rd, cp, "len($r.inset) < 1")
 	c.Reject(rd, cp, "$r.inset[0].start != 0")
 	c.Reject(rd, cp, "$r.inset[0].end <= $r.in.start")
-	c.ClampedOrExempt(rd, cp, 2, "a slice ending at inset[0].end-in.start", func(v ssa.Value) bool {
-		return sliceHighIs(v, "($r.inset[0].end-$r.in.start)")
+	c.QaClampedOrExempt(rd, cp, 2, "a slice ending at inset[0].end-in.start", func(v ssa.Value) bool {
+		return qaSliceHighIs(v, "($r.inset[0].end-$r.in.start)")
 	}, "$r.inset[0].end - $r.in.start >= len($0)")
 	c.Before(rd, cp, Calls("(*quic.pipe).discardBefore").ArgIs(1, "($r.in.start+len(φ($0|$0[:($r.inset[0].end-$r.in.start)])))"))
 }
 
-// sameAsSliceLen: v is the length of the slice the function returns as its
+// qaSameAsSliceLen: v is the length of the slice the function returns as its
 // first result (x[:v]).
-func sameAsSliceLen(c *Ctx, fnName string, v ssa.Value) bool {
+func qaSameAsSliceLen(c *Ctx, fnName string, v ssa.Value) bool {
 	fn := c.P.Fn(fnName)
 	if fn == nil {
 		return false
@@ -216,7 +216,7 @@ func sameAsSliceLen(c *Ctx, fnName string, v ssa.Value) bool {
 			if !isRet || len(r.Results) == 0 {
 				continue
 			}
-			if sl, isSl := r.Results[0].(*ssa.Slice); isSl && sl.High != nil && StripConv_quica(sl.High) == StripConv_quica(v) {
+			if sl, isSl := r.Results[0].(*ssa.Slice); isSl && sl.High != nil && QaStripConv(sl.High) == QaStripConv(v) {
 				ok = true
 			}
 		}
@@ -224,16 +224,16 @@ func sameAsSliceLen(c *Ctx, fnName string, v ssa.Value) bool {
 	return ok
 }
 
-// sliceHighIs: v is x[:h] with h rendering as term.
-func sliceHighIs(v ssa.Value, term string) bool {
+// qaSliceHighIs: v is x[:h] with h rendering as term.
+func qaSliceHighIs(v ssa.Value, term string) bool {
 	sl, ok := v.(*ssa.Slice)
 	return ok && sl.Low == nil && sl.High != nil && Term(sl.High) == term
 }
 
-// sameOffsetAndTrim: in handleData the offset given to pipe.writeAt is the
+// qaSameOffsetAndTrim: in handleData the offset given to pipe.writeAt is the
 // start given to inset.add, and wherever the offset was advanced past a
 // duplicate prefix the data slice was advanced by the same amount.
-func sameOffsetAndTrim(c *Ctx, hd string) {
+func qaSameOffsetAndTrim(c *Ctx, hd string) {
 	fn := c.MustFn(hd)
 	if fn == nil {
 		return
@@ -248,10 +248,10 @@ func sameOffsetAndTrim(c *Ctx, hd string) {
 	}
 	w := ws[0].(*ssa.Call)
 	a := as[0].(*ssa.Call)
-	off := StripConv_quica(w.Call.Args[2])
-	c.Check(off == StripConv_quica(a.Call.Args[1]), "same-value", c1, w.Pos(), Term(off),
+	off := QaStripConv(w.Call.Args[2])
+	c.Check(off == QaStripConv(a.Call.Args[1]), "same-value", c1, w.Pos(), Term(off),
 		"writeAt stores at `"+Term(off)+"` but inset records a range starting at `"+Term(a.Call.Args[1])+"`")
-	data := StripConv_quica(w.Call.Args[1])
+	data := QaStripConv(w.Call.Args[1])
 	pb, okb := data.(*ssa.Phi)
 	po, oko := off.(*ssa.Phi)
 	if !okb && !oko {
@@ -266,7 +266,7 @@ func sameOffsetAndTrim(c *Ctx, hd string) {
 	}
 	n := 0
 	for i := range pb.Edges {
-		bi, oi := StripConv_quica(pb.Edges[i]), StripConv_quica(po.Edges[i])
+		bi, oi := QaStripConv(pb.Edges[i]), QaStripConv(po.Edges[i])
 		_, p1 := bi.(*ssa.Parameter)
 		_, p2 := oi.(*ssa.Parameter)
 		if p1 && p2 {
@@ -276,8 +276,8 @@ func sameOffsetAndTrim(c *Ctx, hd string) {
 		good := false
 		if ok && sl.High == nil && sl.Low != nil {
 			if _, isP := sl.X.(*ssa.Parameter); isP {
-				if d, ok := StripConv_quica(sl.Low).(*ssa.BinOp); ok && d.Op.String() == "-" && StripConv_quica(d.X) == oi {
-					if _, isP := StripConv_quica(d.Y).(*ssa.Parameter); isP {
+				if d, ok := QaStripConv(sl.Low).(*ssa.BinOp); ok && d.Op.String() == "-" && QaStripConv(d.X) == oi {
+					if _, isP := QaStripConv(d.Y).(*ssa.Parameter); isP {
 						good = true
 					}
 				}
